@@ -1352,6 +1352,7 @@ type Options struct {
 	PkgName     string
 	FileNames   []string // gogen file name per source file ("" = default file)
 	Setup       func(d *Driver)
+	Finish      func(d *Driver) // called after all files are translated, before the package is written
 	NoWrite     bool
 	CanImplicit func(pkg *gogen.Package, V, T types.Type, pv *gogen.Element) bool
 }
@@ -1508,6 +1509,9 @@ func Build(fset *token.FileSet, files []*ast.File, srcs map[string][]byte, o Opt
 				}
 			}
 			d.funcBody(fb)
+		}
+		if o.Finish != nil {
+			o.Finish(d)
 		}
 	})
 	r.Steps = d.Steps
